@@ -696,7 +696,8 @@ ra_writeable(RegisterTable *t, RegisterAddress addr, RegisterOffset n)
         }
         if (register_area_is_writeable(&t->area[i]) == false) {
             rv.code = REG_ACCESS_READONLY;
-            rv.address = addr;
+            /* The first address of the request inside this area */
+            rv.address = (t->area[i].base > addr) ? t->area[i].base : addr;
             return rv;
         }
     }
